@@ -1,10 +1,11 @@
-import Holpy.C18.Model
+import Holpy.C18.ModelRules
 import Holpy.C18.Sem
 import Holpy.C18.Gen
 import Holpy.C18.ProofsHyps
 import Holpy.C18.ProofsRes
 import Holpy.C18.ProofsProof
 import Holpy.C18.ProofsLA
+import Holpy.C18.ProofsArith
 /-
 C18 — property theorems.  `Interp` is an arbitrary first-order interpretation (Sem.lean); a
 sequent holds when its hypotheses imply its proposition.  Everything is about the model of the
@@ -27,14 +28,14 @@ def classified : List (String × Bool) := [
   ("verit_and", true),
   ("verit_and_neg", true),
   ("verit_and_pos", true),
-  ("verit_and_simplify", false),
+  ("verit_and_simplify", true),
   ("verit_bfun_elim", false),
   ("verit_bind", false),
-  ("verit_bool_simplify", false),
-  ("verit_comp_simplify", false),
+  ("verit_bool_simplify", true),
+  ("verit_comp_simplify", true),
   ("verit_cong", false),
   ("verit_conj_pts", false),
-  ("verit_connective_def", false),
+  ("verit_connective_def", true),
   ("verit_contraction", true),
   ("verit_disj_pts", false),
   ("verit_distinct_elim", false),
@@ -50,7 +51,7 @@ def classified : List (String × Bool) := [
   ("verit_equiv_neg2", true),
   ("verit_equiv_pos1", true),
   ("verit_equiv_pos2", true),
-  ("verit_equiv_simplify", false),
+  ("verit_equiv_simplify", true),
   ("verit_false", true),
   ("verit_forall_inst", false),
   ("verit_imp_conj", false),
@@ -59,7 +60,7 @@ def classified : List (String × Bool) := [
   ("verit_implies_neg1", true),
   ("verit_implies_neg2", true),
   ("verit_implies_pos", true),
-  ("verit_implies_simplify", false),
+  ("verit_implies_simplify", true),
   ("verit_ite1", true),
   ("verit_ite2", true),
   ("verit_ite_intro", false),
@@ -67,12 +68,12 @@ def classified : List (String × Bool) := [
   ("verit_ite_neg2", true),
   ("verit_ite_pos1", true),
   ("verit_ite_pos2", true),
-  ("verit_ite_simplify", false),
+  ("verit_ite_simplify", true),
   ("verit_la_disequality", true),
   ("verit_la_generic", true),
   ("verit_la_rw_eq", true),
   ("verit_let", false),
-  ("verit_minus_simplify", false),
+  ("verit_minus_simplify", true),
   ("verit_norm_lia", false),
   ("verit_norm_lra", false),
   ("verit_not_and", true),
@@ -84,12 +85,12 @@ def classified : List (String × Bool) := [
   ("verit_not_ite2", true),
   ("verit_not_not", true),
   ("verit_not_or", true),
-  ("verit_not_simplify", false),
+  ("verit_not_simplify", true),
   ("verit_onepoint", false),
   ("verit_or", true),
   ("verit_or_neg", true),
   ("verit_or_pos", true),
-  ("verit_or_simplify", false),
+  ("verit_or_simplify", true),
   ("verit_prod_simplify", false),
   ("verit_qnt_cnf", false),
   ("verit_qnt_join", false),
@@ -99,11 +100,11 @@ def classified : List (String × Bool) := [
   ("verit_round_lia", false),
   ("verit_sko_ex", false),
   ("verit_sko_forall", false),
-  ("verit_subproof", false),
+  ("verit_subproof", true),
   ("verit_sum_simplify", false),
   ("verit_th_resolution", true),
   ("verit_trans", true),
-  ("verit_unary_minus_simplify", false),
+  ("verit_unary_minus_simplify", true),
   ("verit_xor_neg1", true),
   ("verit_xor_neg2", true),
   ("verit_xor_pos1", true),
@@ -121,7 +122,9 @@ theorem registry_classified : classified.map (·.1) = Gen.namesSorted := by deci
 theorem tier1_modelled : ∀ r ∈ Rule.all, (r.name, true) ∈ classified := by decide +kernel
 
 /-- … plus `verit_la_generic`, whose model (ModelLA.lean) works on parsed linear arithmetic -/
-theorem tier1_count : tier1.length = Rule.all.length + 1 ∧ ("verit_la_generic", true) ∈ classified := by decide +kernel
+theorem tier1_count : tier1.length = Rule.all.length + 4 ∧ ("verit_la_generic", true) ∈ classified
+    ∧ ("verit_comp_simplify", true) ∈ classified ∧ ("verit_minus_simplify", true) ∈ classified
+    ∧ ("verit_unary_minus_simplify", true) ∈ classified := by decide +kernel
 
 example : ("verit_not_and", true) ∈ classified ∧ ("verit_onepoint", false) ∈ classified := by decide +kernel
 
@@ -217,6 +220,35 @@ example :
     ∧ LA.laGenericQ [⟨true, .le, .atom 0, .num 0⟩, ⟨true, .le, .num 1, .atom 0⟩] [1, 1] = true
     ∧ LA.laGenericQ [⟨true, .le, .atom 0, .num 0⟩, ⟨true, .le, .num 1, .atom 0⟩] [1, 0] = false := by
   refine ⟨by decide, by decide, by decide +kernel, by decide +kernel⟩
+
+/-! ### arithmetic simplifications (ModelArith.lean: structural arithmetic terms) -/
+
+/-- comp_simplify, minus_simplify, unary_minus_simplify: an accepted equivalence `(t1 cmp t2) <--> rhs`
+resp. equation `lhs = rhs` holds under every valuation of the atoms by rationals (sort real) and
+by integers (sort int). -/
+theorem arith_simplify_sound :
+    (∀ (ρ : Nat → ℚ) c t1 t2 rhs, Arith.compSimplifyQ c t1 t2 rhs = true →
+      (Arith.cmpHolds c (Arith.evalA ρ t1) (Arith.evalA ρ t2) ↔ Arith.rhsHolds ρ rhs)) ∧
+    (∀ (ρ : Nat → ℤ) c t1 t2 rhs, Arith.compSimplifyZ c t1 t2 rhs = true →
+      (Arith.cmpHolds c (Arith.evalA ρ t1) (Arith.evalA ρ t2) ↔ Arith.rhsHolds ρ rhs)) ∧
+    (∀ (ρ : Nat → ℚ) l r, Arith.minusSimplifyQ l r = true → Arith.evalA ρ l = Arith.evalA ρ r) ∧
+    (∀ (ρ : Nat → ℤ) l r, Arith.minusSimplifyZ l r = true → Arith.evalA ρ l = Arith.evalA ρ r) ∧
+    (∀ (ρ : Nat → ℚ) l r, Arith.unaryMinusSimplifyQ l r = true → Arith.evalA ρ l = Arith.evalA ρ r) ∧
+    (∀ (ρ : Nat → ℤ) l r, Arith.unaryMinusSimplifyZ l r = true → Arith.evalA ρ l = Arith.evalA ρ r) :=
+  ⟨Arith.compSimplifyQ_sound, Arith.compSimplifyZ_sound, Arith.minusSimplifyQ_sound, Arith.minusSimplifyZ_sound,
+   Arith.unaryMinusSimplifyQ_sound, Arith.unaryMinusSimplifyZ_sound⟩
+
+/-- non-vacuity: `2 < 3 <--> true`, `x < y <--> ~(y <= x)` accepted, `x < y <--> ~(x <= y)` rejected;
+`x - 0 = x` accepted, `x - 0 = 0` rejected; `-(-x) = x` accepted, `-(x - y) = y` rejected -/
+example :
+    Arith.compSimplifyZ .lt (.lit 2) (.lit 3) .tt = true
+    ∧ Arith.compSimplifyZ .lt (.atom 0) (.atom 1) (.nle (.atom 1) (.atom 0)) = true
+    ∧ Arith.compSimplifyZ .lt (.atom 0) (.atom 1) (.nle (.atom 0) (.atom 1)) = false
+    ∧ Arith.minusSimplifyZ (.sub (.atom 0) (.lit 0)) (.atom 0) = true
+    ∧ Arith.minusSimplifyZ (.sub (.atom 0) (.lit 0)) (.lit 0) = false
+    ∧ Arith.unaryMinusSimplifyZ (.neg (.neg (.atom 0))) (.atom 0) = true
+    ∧ Arith.unaryMinusSimplifyZ (.neg (.sub (.atom 0) (.atom 1))) (.atom 1) = false := by
+  refine ⟨by decide, by decide, by decide, by decide, by decide, by decide, by decide⟩
 
 /-! ### resolution -/
 
